@@ -62,9 +62,21 @@ impl Gen {
         let (a, b) = w.keys_by_table(s);
         match class {
             1 => pick(&mut self.rng, &a).unwrap_or_else(|| self.key_absent(w, s)),
-            2 => pick(&mut self.rng, &b)
-                .or_else(|| pick(&mut self.rng, &a))
-                .unwrap_or_else(|| self.key_absent(w, s)),
+            2 => {
+                // within the old table the position relative to the move cursor matters: the very
+                // next element to be carried, the last one, or any
+                let c = w.cursor_keys(s);
+                let r = self.rng.gen_range(0..100);
+                if !c.is_empty() && r < 40 {
+                    c[0]
+                } else if !c.is_empty() && r < 55 {
+                    c[c.len() - 1]
+                } else {
+                    pick(&mut self.rng, &b)
+                        .or_else(|| pick(&mut self.rng, &a))
+                        .unwrap_or_else(|| self.key_absent(w, s))
+                }
+            }
             _ => self.key_absent(w, s),
         }
     }
@@ -320,6 +332,17 @@ impl Gen {
             let c = self.rng.gen_range(0..10);
             let k = if c < 6 { self.key_absent(w, s) } else if c < 8 { self.key_of(w, s, 2) } else { self.key_of(w, s, 1) };
             return json!({"op":"Insert","s":s,"k":k,"v":self.val()});
+        }
+        // clone / clone_from / == are most interesting while the source (or the destination) is split
+        if nslots == 2 && self.rng.gen_bool(if split { 0.22 } else { 0.06 }) {
+            let d = 3 - s;
+            return match self.rng.gen_range(0..5) {
+                0 => json!({"op":"Clone","s":s,"d":d}),
+                1 | 2 if w.alive(d) => json!({"op":"CloneFrom","s":s,"d":d}),
+                3 if w.alive(d) => json!({"op":"CloneFrom","s":d,"d":s}),
+                _ if w.alive(d) => json!({"op":"Eq","s":s,"d":d}),
+                _ => json!({"op":"Clone","s":s,"d":d}),
+            };
         }
         let r2 = self.rng.gen_range(0..100);
         match r2 {
